@@ -67,11 +67,14 @@ CLAIMED["C07"] = (
     "and compared with Python's own grouping (ast.parse on checker-built "
     "skeleton strings); lexer-table priority checks; ast path rules for "
     "whole-input and argument lists; importer operator tables against the "
-    "interpreter's ast operator tables",
+    "interpreter's ast operator tables, with a coverage rule (every operator "
+    "the model parser and Python share has an importer entry) and a piecewise "
+    "reading of the comparison-chain loops in parser and importer",
     "All 2-operator skeletons of the shared syntax (quick) and 3-operator "
     "skeletons (thorough) are enumerated exhaustively; the importer's tables "
     "are compared entry by entry with the node each Python operator denotes, "
-    "including whether the entry can be called with two operands.",
+    "including whether the entry can be called with two operands; a comparison "
+    "chain must mean the conjunction of its links in both.",
     _NOTE, "DESIGN.md section 5, C07")
 
 CLAIMED["C14"] = (
@@ -89,7 +92,8 @@ CLAIMED["C14"] = (
 CLAIMED["C13"] = (
     "attribute-existence rule on exporter handlers; exporter/importer operator "
     "tables against the interpreter's ast operator tables and the node "
-    "denotation table; ast def-use rules on compile(); CompileMapper's printer "
+    "denotation table; exporter/importer sibling agreement (every ast node kind "
+    "written is read); ast def-use rules on compile(); CompileMapper's printer "
     "table regrouped by Python's own grammar (ast.parse of checker-built source)",
     "Each exporter handler, importer table entry and compile() step is a finite "
     "fact checked for all expressions at once; the generated source of every "
@@ -101,7 +105,9 @@ CLAIMED["C01"] = (
     "symbolic instantiation of the generated __eq__/__hash__ code template "
     "(f-string holes expanded for 0..3 symbolic fields, result parsed and "
     "analysed path by path); class census over the node table; who-may-write "
-    "(ownership) rule over every setattr site and every mapper handler",
+    "(ownership) rule over every setattr site and every mapper handler; "
+    "frozenness of node classes outside the dataclass machinery by "
+    "concretising their __setattr__ guard for every stored name",
     "The mechanism that makes equality structural, hashes consistent and nodes "
     "immutable is decided for every node class at once: the template's paths, "
     "the decorator's dataclass arguments, the census of classes that bypass it, "
@@ -138,12 +144,15 @@ CLAIMED["C11"] = (
     "table agreement of the folding mappers, rule F on FlattenMapper, def-use "
     "rules on TermCollector's bookkeeping (which component of the (base, "
     "exponent) table reaches the coefficient / the term key, accumulation by "
-    "addition)",
+    "addition); DistributeMapper: re-distribution rule on the multiplying-out "
+    "helper, truth table of map_power over the class of the mapped base",
     "Partial: the structural clauses of flattening and constant folding are "
     "decided for all inputs from the path conditions; for term collection only "
     "that no component is dropped while splitting and re-assembling; value "
-    "preservation and the normal forms of distribution are declined (no "
-    "structural reading).",
+    "for distribution the necessary conditions that no product is built "
+    "around an already multiplied-out result and that no product, sum or "
+    "integer power survives as the base of a positive integer power; value "
+    "preservation is declined (no structural reading).",
     _NOTE, "DESIGN.md section 5, C11")
 
 CLAIMED["C12"] = (
@@ -173,12 +182,16 @@ CLAIMED["C19"] = (
     "path rule (raise dominates loop) on integer_power; rules F/K/W with "
     "single-use-iterator tracking on the polynomial traversals; path conditions "
     "of quotient(); class census for hashability of the exact legacy nodes; "
-    "argument-forwarding rule on the thin FFT wrappers",
+    "argument-forwarding rule on the thin FFT wrappers; linear-form reading of "
+    "operators defined through + and unary minus; loop-exit rule on polynomial "
+    "long division",
     "Partial: only the anchored structural clauses are decided (negative-n "
     "refusal, coefficients surviving a rewriting mapper, exact-quotient node "
     "built only for Euclidean rings and evaluated as numerator/denominator, "
-    "ifft/sym_fft hand every option on to fft). Euclid, lcm, the FFT butterfly "
-    "and polynomial arithmetic are numeric and declined.",
+    "ifft/sym_fft hand every option on to fft, derived operators have the "
+    "right signs, long division ends with a remainder below the divisor). "
+    "Euclid, lcm, the FFT butterfly and directly computed polynomial arithmetic "
+    "are numeric and declined.",
     _NOTE, "DESIGN.md section 5, C19")
 
 CLAIMED["C16"] = (
